@@ -1,10 +1,101 @@
 (** C19 — configured upstream time limits are the ones the HTTP proxy uses
-    (transport/transport.go, route/route.go:78-82, proxy/http_handler.go:40-66).
+    (transport/transport.go, main.go:73/141-156/230-233, route/route.go:78-82,
+    proxy/http_proxy.go:217-222, proxy/http_handler.go:40-66).
     Statements, [exact], [Print Assumptions] only. *)
-From Coq Require Import List ZArith.
+From Coq Require Import String List ZArith.
 From Fabio Require Import Lib.Outcome Lib.Bytes Model.Transport Proofs.Transport.
 Import ListNotations.
 Local Open Scope Z_scope.
+
+(* ---- the headline statement ---- *)
+
+(* After main()'s start-up (SetConfig, first routing table, default and skip-verify transports) from
+   ANY package state: for every configuration (negative values included), every table, every target
+   of it — plain, skip-verify or host override, [kind_of] — and every upstream delay / connect time,
+   the transport the proxy hands the target's requests to (http_proxy.go:217-222) carries the five
+   configured limits, the TLS settings of the target's kind and no other limit; an upstream that
+   does not answer its header within the configured response-header timeout is answered 504 at that
+   time, any other upstream is served with its own status at its own time; a connect that does not
+   complete within the configured dial timeout (or any connect under a negative one, which
+   net.Dialer turns into a deadline in the past) is answered 504, any other is served.
+   [rht_spec] / [dial_spec] are stated on the CONFIGURED value, [serve] / [dial] run on the chosen
+   transport's field.  That net/http honours the field is runtime behaviour (harness only). *)
+Theorem C19_end_to_end : forall s0 cfg tgs i tg delay connect st,
+  nth_error tgs i = Some tg ->
+  exists t, chosen (main_start set_config s0 cfg tgs) i = Some t /\
+    uses t cfg /\ t_tls t = kind_tls tg /\ t_other t = 0 /\
+    rht_spec (l_rht cfg) delay st (serve (t_rht t) delay st) /\
+    dial_spec (l_dial cfg) connect st (dial (t_dial t) connect st).
+Proof. exact end_to_end. Qed.
+Print Assumptions C19_end_to_end.
+
+(* the same for every later routing table (registry change): it is built from the same state *)
+Theorem C19_end_to_end_reload : forall s0 cfg tgs tgs' i tg delay connect st,
+  nth_error tgs' i = Some tg ->
+  exists t, chosen (reload (set_config s0 cfg) (main_start set_config s0 cfg tgs) tgs') i = Some t /\
+    uses t cfg /\ t_tls t = kind_tls tg /\ t_other t = 0 /\
+    rht_spec (l_rht cfg) delay st (serve (t_rht t) delay st) /\
+    dial_spec (l_dial cfg) connect st (dial (t_dial t) connect st).
+Proof. exact end_to_end_reload. Qed.
+Print Assumptions C19_end_to_end_reload.
+
+(* non-vacuity: a table with one target of each kind; each is served by a different transport, a
+   slow upstream gets (504, limit) and a fast one its own answer on all three *)
+Theorem C19_end_to_end_nonvacuous :
+  let cfg := {| l_rht := 300; l_idle := 15; l_maxconn := 100; l_dial := 30; l_keepalive := 7 |} in
+  let plain := {| tg_host := []; tg_dst_https := false; tg_proto := []; tg_skip := false |} in
+  let skipv := {| tg_host := bs "dst"%string; tg_dst_https := true; tg_proto := []; tg_skip := true |} in
+  let over := {| tg_host := bs "upstream.example"%string; tg_dst_https := true; tg_proto := []; tg_skip := true |} in
+  let px := main_start set_config init_state cfg [plain; skipv; over] in
+  map kind_of [plain; skipv; over] = [KPlain; KSkipVerify; KOverride] /\
+  map (fun i => option_map t_tls (chosen px i)) [0%nat; 1%nat; 2%nat] =
+    [Some None; Some (Some insecure_tls); Some (Some (target_tls over))] /\
+  map (fun i => option_map (fun t => serve (t_rht t) 2000 200) (chosen px i)) [0%nat; 1%nat; 2%nat] =
+    [Some (504, 300); Some (504, 300); Some (504, 300)] /\
+  map (fun i => option_map (fun t => serve (t_rht t) 100 200) (chosen px i)) [0%nat; 1%nat; 2%nat] =
+    [Some (200, 100); Some (200, 100); Some (200, 100)] /\
+  chosen px 3 = None.
+Proof. exact end_to_end_nonvacuous. Qed.
+Print Assumptions C19_end_to_end_nonvacuous.
+
+(* The order matters.  With SetConfig at the top of startServers, i.e. after the first table was
+   built (what one of the seeded changes does), the statement is false: a host-override target is
+   served from the state main() started with and its client is held although a limit is configured.
+   Only the host-override kind is affected. *)
+Theorem C19_setconfig_after_first_table_refuted :
+  exists cfg tgs i t delay st,
+    chosen (main_start_late set_config init_state cfg tgs) i = Some t /\ ~ uses t cfg /\
+    rht_hits (l_rht cfg) delay /\ serve (t_rht t) delay st = (st, delay).
+Proof. exact late_setconfig_refuted. Qed.
+Print Assumptions C19_setconfig_after_first_table_refuted.
+
+Theorem C19_setconfig_after_first_table_on_domain : forall s0 cfg tgs i tg delay connect st,
+  nth_error tgs i = Some tg -> kind_of tg <> KOverride ->
+  exists t, chosen (main_start_late set_config s0 cfg tgs) i = Some t /\
+    uses t cfg /\ t_tls t = kind_tls tg /\
+    rht_spec (l_rht cfg) delay st (serve (t_rht t) delay st) /\
+    dial_spec (l_dial cfg) connect st (dial (t_dial t) connect st).
+Proof. exact late_setconfig_on_domain. Qed.
+Print Assumptions C19_setconfig_after_first_table_on_domain.
+
+(* main()'s start-up is the history [main_ops] of the package operations, in main()'s order: what
+   the proxy holds are exactly the outputs of that history, and every one uses the configuration *)
+Theorem C19_main_is_a_history : forall set s0 cfg tgs,
+  proxy_transports (main_start set s0 cfg tgs) = run set s0 (main_ops cfg tgs).
+Proof. exact main_start_is_run. Qed.
+Print Assumptions C19_main_is_a_history.
+
+Theorem C19_late_main_is_a_history : forall set s0 cfg tgs,
+  proxy_transports (main_start_late set s0 cfg tgs) = run set s0 (main_ops_late cfg tgs).
+Proof. exact main_start_late_is_run. Qed.
+Print Assumptions C19_late_main_is_a_history.
+
+Theorem C19_main_history_all_use_config : forall s0 cfg tgs,
+  Forall (fun t => uses t cfg) (run set_config s0 (main_ops cfg tgs)).
+Proof. exact main_ops_all_use. Qed.
+Print Assumptions C19_main_history_all_use_config.
+
+(* ---- the package: histories of SetConfig / NewTransport ---- *)
 
 (* For every history of SetConfig / NewTransport calls and every starting state: the n-th
    transport built carries the five limits of the last configuration set before it
@@ -16,8 +107,28 @@ Theorem C19_transport_uses_config : forall ops s n k tls,
 Proof. exact run_spec. Qed.
 Print Assumptions C19_transport_uses_config.
 
-(* ... and no other connection limit of http.Transport is set: the configured limits are the
-   only ones in force. *)
+(* the hypothesis is met by every n below the number of NewTransport operations, which is the
+   number of transports built *)
+Theorem C19_transport_uses_config_defined : forall ops n,
+  (n < length (filter is_new ops))%nat -> exists k tls, nth_new ops n = Some (k, tls).
+Proof. exact nth_new_defined. Qed.
+Print Assumptions C19_transport_uses_config_defined.
+
+Theorem C19_transports_built : forall ops set s, length (run set s ops) = length (filter is_new ops).
+Proof. exact run_length. Qed.
+Print Assumptions C19_transports_built.
+
+Theorem C19_transport_uses_config_nonvacuous :
+  let c1 := {| l_rht := 3; l_idle := 4; l_maxconn := 5; l_dial := 6; l_keepalive := 7 |} in
+  let c2 := {| l_rht := 30; l_idle := 40; l_maxconn := 50; l_dial := -60; l_keepalive := 70 |} in
+  let ops := [NewTransport None; SetConfig c1; NewTransport None; SetConfig c2; SetConfig c1; NewTransport None; SetConfig c2; NewTransport None] in
+  nth_new ops 3 = Some (7%nat, None) /\ last_config init_state (firstn 7 ops) = c2 /\
+  map t_rht (run set_config init_state ops) = [0; 3; 3; 30] /\ map t_dial (run set_config init_state ops) = [0; 6; 6; -60].
+Proof. exact run_spec_nonvacuous. Qed.
+Print Assumptions C19_transport_uses_config_nonvacuous.
+
+(* MECHANISM LEMMA, not coverage: [new_transport] writes the literal 0 into [t_other]; the content
+   is the harness's reflection over the real http.Transport, which is compared with this 0. *)
 Theorem C19_no_other_limits : forall ops s, Forall (fun t => t_other t = 0) (run set_config s ops).
 Proof. exact run_no_other_limits. Qed.
 Print Assumptions C19_no_other_limits.
@@ -26,15 +137,39 @@ Theorem C19_set_then_new : forall c tls s, uses (new_transport (set_config s c) 
 Proof. exact set_then_new. Qed.
 Print Assumptions C19_set_then_new.
 
-(* per-route transports (host override on an https destination) use the same limits *)
+(* per-route transports use the same limits ... *)
 Theorem C19_route_transport_uses_config : forall s host dh ph skip t,
   route_transport s host dh ph skip = Some t ->
-  uses t s /\ t_tls t = Some {| tls_server_name := host; tls_skip_verify := skip |}.
+  uses t s /\ t_tls t = Some {| tls_server_name := host; tls_skip_verify := skip |} /\ t_other t = 0.
 Proof. exact route_transport_uses. Qed.
 Print Assumptions C19_route_transport_uses_config.
 
-(* The defect that was repaired in /repo (fix: commit): with the shadowed assignment no
-   history ever changes the limits, so the property was false for every non-zero config. *)
+(* ... and exist exactly for a host override other than "dst" on an https destination (scheme of
+   the destination, or the option proto=https as written) *)
+Theorem C19_route_transport_some_iff : forall s host dh ph skip,
+  (exists t, route_transport s host dh ph skip = Some t) <->
+  host <> [] /\ host <> bs "dst"%string /\ (dh = true \/ ph = true).
+Proof. exact route_transport_some_iff. Qed.
+Print Assumptions C19_route_transport_some_iff.
+
+Theorem C19_proto_is_https_iff : forall proto, proto_is_https proto = true <-> proto = bs "https"%string.
+Proof. exact proto_is_https_iff. Qed.
+Print Assumptions C19_proto_is_https_iff.
+
+Theorem C19_route_transport_nonvacuous :
+  let c := {| l_rht := 300; l_idle := 15; l_maxconn := 100; l_dial := 30; l_keepalive := 7 |} in
+  (exists t, route_transport c (bs "foo.com"%string) true false true = Some t /\ t_rht t = 300 /\ t_dial t = 30 /\
+             t_tls t = Some {| tls_server_name := bs "foo.com"%string; tls_skip_verify := true |}) /\
+  (exists t, route_transport c (bs "foo.com"%string) false (proto_is_https (bs "https"%string)) false = Some t /\ t_idle t = 15) /\
+  route_transport c (bs "foo.com"%string) false (proto_is_https (bs "HTTPS"%string)) false = None /\
+  route_transport c (bs "foo.com"%string) false (proto_is_https (bs "tcp"%string)) false = None /\
+  route_transport c (bs "dst"%string) true false false = None /\
+  route_transport c [] true true true = None.
+Proof. exact route_transport_nonvacuous. Qed.
+Print Assumptions C19_route_transport_nonvacuous.
+
+(* HISTORICAL: the defect that was repaired in /repo (fix: commit).  With the shadowed assignment
+   no history ever changes the limits, so the property was false for every non-zero config. *)
 Theorem C19_shadowed_setter_refuted :
   exists c tls, ~ uses (new_transport (set_config_shadowed init_state c) tls) c.
 Proof. exact shadowed_refuted. Qed.
@@ -45,15 +180,26 @@ Theorem C19_shadowed_setter_ignores_every_history :
 Proof. exact shadowed_ignores. Qed.
 Print Assumptions C19_shadowed_setter_ignores_every_history.
 
-(* An upstream that does not answer within the limit yields 504 at the limit; one that
-   answers in time (or when no limit is set) is proxied with its own status. *)
+(* ---- the time limits: [serve] / [dial] against the declarative [rht_spec] / [dial_spec] ---- *)
+
+(* for EVERY limit (zero and negative: never), delay and status *)
+Theorem C19_serve_meets_spec : forall limit delay st, rht_spec limit delay st (serve limit delay st).
+Proof. exact serve_meets_spec. Qed.
+Print Assumptions C19_serve_meets_spec.
+
+(* for EVERY limit (zero: never; negative: at once), connect time and status *)
+Theorem C19_dial_meets_spec : forall limit connect st, dial_spec limit connect st (dial limit connect st).
+Proof. exact dial_meets_spec. Qed.
+Print Assumptions C19_dial_meets_spec.
+
+(* readable corollaries (mechanism lemmas: consequences of the two above by unfolding the spec) *)
 Theorem C19_timeout_is_504 : forall limit delay st,
   0 < limit -> limit <= delay -> serve limit delay st = (504, limit).
 Proof. exact timeout_is_504. Qed.
 Print Assumptions C19_timeout_is_504.
 
 Theorem C19_in_time_is_proxied : forall limit delay st,
-  delay < limit \/ limit = 0 -> 0 <= limit -> serve limit delay st = (st, delay).
+  limit <= 0 \/ delay < limit -> serve limit delay st = (st, delay).
 Proof. exact in_time_is_proxied. Qed.
 Print Assumptions C19_in_time_is_proxied.
 
@@ -61,9 +207,24 @@ Theorem C19_answered_within_limit : forall limit delay st, 0 < limit -> snd (ser
 Proof. exact answered_within_limit. Qed.
 Print Assumptions C19_answered_within_limit.
 
-(* The request is handed to the transport once, so what the client sees is [serve] and the
-   upstream receives the request once; with any further attempt behind the proxy's back the
-   client of an upstream that does not answer would be held beyond the limit. *)
+Theorem C19_dial_timeout_is_504 : forall limit connect st,
+  0 < limit -> limit <= connect -> dial limit connect st = 504.
+Proof. exact dial_timeout_is_504. Qed.
+Print Assumptions C19_dial_timeout_is_504.
+
+Theorem C19_dial_negative_is_504 : forall limit connect st, limit < 0 -> dial limit connect st = 504.
+Proof. exact dial_negative_is_504. Qed.
+Print Assumptions C19_dial_negative_is_504.
+
+Theorem C19_dial_in_time : forall limit connect st,
+  limit = 0 \/ (0 < limit /\ connect < limit) -> dial limit connect st = st.
+Proof. exact dial_in_time. Qed.
+Print Assumptions C19_dial_in_time.
+
+(* The request is handed to the transport once ([attempts_of_proxy] is the constant 1: a MECHANISM
+   LEMMA whose content is the upstream hit count the harness compares with it), so what the client
+   sees is [serve]; with any further attempt behind the proxy's back the client of an upstream that
+   does not answer would be held beyond the limit. *)
 Theorem C19_single_attempt : forall limit delay st,
   serve_n attempts_of_proxy limit delay st = (fst (serve limit delay st), snd (serve limit delay st), 1).
 Proof. exact serve_once. Qed.
@@ -75,23 +236,13 @@ Theorem C19_within_limit_iff_single_attempt : forall k limit delay st,
 Proof. exact within_limit_iff_single_attempt. Qed.
 Print Assumptions C19_within_limit_iff_single_attempt.
 
-Theorem C19_retry_exceeds_limit_refuted : exists limit delay st,
+(* about a HYPOTHETICAL two-attempt layer (what one of the seeded changes adds), not about /repo *)
+Theorem C19_second_attempt_exceeds_limit : exists limit delay st,
   0 < limit /\ limit < snd (fst (serve_n 2 limit delay st)) /\ snd (serve_n 2 limit delay st) = 2.
-Proof. exact retry_exceeds_limit. Qed.
-Print Assumptions C19_retry_exceeds_limit_refuted.
+Proof. exact second_attempt_exceeds_limit. Qed.
+Print Assumptions C19_second_attempt_exceeds_limit.
 
-(* The configured dial timeout is enforced for every transport built, TLS settings or not:
-   an upstream that cannot be connected within it yields 504, otherwise the upstream's answer. *)
-Theorem C19_dial_timeout_is_504 : forall limit connect st,
-  0 < limit -> limit <= connect -> dial limit connect st = 504.
-Proof. exact dial_timeout_is_504. Qed.
-Print Assumptions C19_dial_timeout_is_504.
-
-Theorem C19_dial_in_time : forall limit connect st,
-  connect < limit \/ limit = 0 -> 0 <= limit -> dial limit connect st = st.
-Proof. exact dial_in_time. Qed.
-Print Assumptions C19_dial_in_time.
-
+(* of the error kinds the handler distinguishes, exactly the net.Error with Timeout() is a 504 *)
 Theorem C19_only_timeouts_are_504 : forall e, error_status e = 504 <-> e = ENetTimeout.
 Proof. exact error_status_timeout. Qed.
 Print Assumptions C19_only_timeouts_are_504.
